@@ -146,7 +146,8 @@ def _rm_entry(name):
 
 def _read(g):
     return {'res': g.get('res', 'miss'), 'val': int(g.get('val', 0) or 0), 'ver': int(g.get('ver', 0) or 0),
-            'flag': int(g.get('flag', 0) or 0), 'c': int(g.get('c', -1) if g.get('c') is not None else -1)}
+            'flag': int(g.get('flag', 0) or 0), 'c': int(g.get('c', -1) if g.get('c') is not None else -1),
+            'off': int(g.get('off', 0) or 0)}
 
 
 def normalize_l1(events):
@@ -181,7 +182,7 @@ def normalize_l1(events):
         elif a == 'Set':
             out.append({'a': 'Set', 'n': n, 'k': e['k'], 'val': e['val'], 'rev': e['rev'], 'flag': e['flag'],
                         'nblk': e['nblk'], 'vh': e['vh'], 'res': e['res'], 'ver': int(e.get('ver', 0) or 0),
-                        'wrote': bool(e.get('wrote'))})
+                        'wrote': bool(e.get('wrote')), 'c': int(e.get('c', -1)), 'off': int(e.get('off', 0))})
         elif a == 'Get':
             r = _read(e)
             r.update({'a': 'Get', 'n': n, 'k': e['k'], 'c': int(e.get('c', -1)), 'off': int(e.get('off', 0)),
